@@ -271,6 +271,9 @@ def run(ck, prog, tier, load):
     ck.anchor("C07-d", n, 2, "writes of Inner.need_read")
     v = prog.consts.get("actix_http::h1::payload::MAX_BUFFER_SIZE", {}).get("int")
     ck.ob("C07-d.limit-const", "MAX_BUFFER_SIZE", isinstance(v, int) and 0 < v <= 1 << 20, None, None, "h1::payload::MAX_BUFFER_SIZE = %s" % v, nontrivial=False)
+    # the feeder side in the dispatcher: a body cut by the peer's end of input is failed before its end is signalled (shared with C04-c)
+    from .c04 import eof_fails_body_first
+    eof_fails_body_first(ck, prog, "C07-c")
 
 
 def register_impl(ck, prog, P):
